@@ -34,3 +34,34 @@ Proof.
   apply Forall_app. split; [exact Hv|]. constructor; [exact I|constructor].
 Qed.
 Print Assumptions C11_no_panic_under_faults.
+
+(* ---------- reader side: a source that may fail at ANY call.
+   The entry reader stack of a stored entry (plain: source -> Take -> Crc32Reader; ZipCrypto: with the decrypting layer
+   in between) over a source with an arbitrary plan of short reads AND failures: for every schedule of caller buffer
+   sizes, the bytes delivered before the first error are a prefix of the true (denoted) content -- never other bytes
+   -- and a read that reaches a clean end of file delivered exactly the true content; a corrupted entry never reaches
+   a clean end of file, failures or not.  An I/O failure thus surfaces as an error or as the failure-free result. *)
+From ZipV Require Import Proofs.StreamProofs Proofs.FaultStreams.
+Theorem C11_reader_stack_under_faults : forall crc,
+  fstreams (crc_read crc (take_read src_read)) (fun _ => True) (crc_den crc (take_den (fun s : src => Good (s_data s)))) /\
+  fstreams (crc_read crc (zc_read (take_read src_read))) (fun _ => True)
+           (crc_den crc (zc_den (take_den (fun s : src => Good (s_data s))))).
+Proof. intro crc. split; [apply stored_stack_fstreams|apply zipcrypto_stack_fstreams]. Qed.
+Print Assumptions C11_reader_stack_under_faults.
+
+Theorem C11_delivered_is_prefix : forall (S : Type) (rd : reader S) Inv D, fstreams rd Inv D ->
+  forall bufs s d outs sf, Inv s -> D s = Good d -> run_reads rd s bufs = (outs, sf) -> exists rest, d = oks outs ++ rest.
+Proof. exact (@fault_prefix). Qed.
+Print Assumptions C11_delivered_is_prefix.
+
+Theorem C11_completed_is_exact : forall (S : Type) (rd : reader S) Inv D, fstreams rd Inv D ->
+  forall bufs s d outs sf k n, Inv s -> D s = Good d -> run_reads rd s bufs = (outs, sf) ->
+  nth_error bufs k = Some n -> 0 < n -> nth_error outs k = Some (Ok []) -> oks (firstn k outs) = d.
+Proof. exact (@fault_complete). Qed.
+Print Assumptions C11_completed_is_exact.
+
+Theorem C11_corrupt_never_completes : forall (S : Type) (rd : reader S) Inv D, fstreams rd Inv D ->
+  forall bufs s outs sf k n, Inv s -> D s = Bad -> run_reads rd s bufs = (outs, sf) ->
+  nth_error bufs k = Some n -> 0 < n -> nth_error outs k <> Some (Ok []).
+Proof. exact (@fault_bad). Qed.
+Print Assumptions C11_corrupt_never_completes.
